@@ -45,6 +45,9 @@ type action struct {
 	Evs      []int    `json:"evs"`
 	Revs     []bool   `json:"revs"`
 	Graceful bool     `json:"graceful"` // Restart
+	Ver      int      `json:"ver"`      // Store: version of the block (number of Store calls before it)
+	Src      []id     `json:"src"`      // Store: per position ["fresh"] or the hash ["tx",v,i] of a reverted transaction to re-include
+	Number   int      `json:"number"`   // Revert: the height that is reverted
 }
 
 type id = []json.RawMessage // ["tx",n,i] | ["notfound"] | ["error"] | ...
@@ -67,22 +70,49 @@ type blockView struct {
 	Pair         []id   `json:"pair"`
 	Status       []id   `json:"status"`
 	TxByHash     []id   `json:"txByHash"`
+	LocByHash    []id   `json:"locByHash"` // ["at",n,i] | ["notfound"]; absent in behaviours recorded before the reorg dimension
 	RcByHash     []id   `json:"rcByHash"`
 	SU           string `json:"su"`
 	SUByHash     string `json:"suByHash"`
 	L1           []id   `json:"l1"`
 }
 
+// what a reorg dropped and must be NOT FOUND now, per accessor family (kinds as the specification says)
+type goneTx struct {
+	Hash id     `json:"hash"`
+	Tx   string `json:"tx"`
+	Loc  string `json:"loc"`
+	Rc   string `json:"rc"`
+	L1   string `json:"l1"` // "na" for other kinds
+}
+
+type goneBlock struct {
+	Hash   id     `json:"hash"` // ["block", version]
+	Number string `json:"number"`
+	Header string `json:"header"`
+	Block  string `json:"block"`
+	SU     string `json:"su"`
+}
+
+type goneView struct {
+	Txs    []goneTx    `json:"txs"`
+	Blocks []goneBlock `json:"blocks"`
+}
+
 type view struct {
 	Height int         `json:"height"`
 	Blocks []blockView `json:"blocks"`
 	Beyond blockView   `json:"beyond"`
+	Gone   goneView    `json:"gone"`
 }
 
 type step struct {
 	A    action `json:"a"`
 	View view   `json:"view"`
+	Read *bool  `json:"read,omitempty"` // false: no read between this write and the next (absent = true)
 }
+
+func (s step) reads() bool { return s.Read == nil || *s.Read }
 
 type input struct {
 	Seed       int64    `json:"seed"`
@@ -236,9 +266,19 @@ func ints(x id, from int) []int {
 // ------------------------------------------------------------------ concretisation
 
 type stored struct {
-	b       *chainkit.Built
-	hashes  []felt.Felt // class hashes declared in this block
-	version string
+	b        *chainkit.Built
+	hashes   []felt.Felt // class hashes declared in this block
+	version  string
+	ver      int         // block version (the specification's BlockHash(ver))
+	deployed *felt.Felt  // contract deployed by this block's state diff, if any
+}
+
+// origin: where a transaction was FIRST included (block version, index) - the specification's TxHash(v, i)
+type origin [2]int
+
+func originOf(x id) origin {
+	p := ints(x, 1)
+	return origin{p[0], p[1]}
 }
 
 var versions = []string{"0.13.2", "0.13.4", "0.14.0", "0.14.1"}
@@ -280,12 +320,20 @@ func l1Handler(g *chainkit.Gen, variant int) core.Transaction {
 	return tx
 }
 
-func concretise(g *chainkit.Gen, n *chainkit.Node, a action, number, idx int, contracts *[]felt.Felt, large bool) (*stored, error) {
-	st := &stored{version: versions[min(3, idx%4+number)]}
+// concretise builds the block of one Store step on top of the node's head. known resolves the
+// transactions the step re-includes (reverted earlier, not in the chain now); nil for append-only use.
+func concretise(g *chainkit.Gen, n *chainkit.Node, a action, number, idx int, contracts *[]felt.Felt, large bool,
+	known map[origin]core.Transaction,
+) (*stored, error) {
+	ver := number
+	if known != nil {
+		ver = a.Ver
+	}
+	st := &stored{version: versions[min(3, idx%4+number)], ver: ver}
 	var d *core.StateDiff
 	classes := map[felt.Felt]core.ClassDefinition{}
-	large = large && number == 0
-	flavour := (idx + number) % 3
+	large = large && ver == 0
+	flavour := (idx + ver) % 3 // a replacement block has another shape of state diff than the block it replaces
 	if large {
 		flavour = 0
 	}
@@ -319,6 +367,7 @@ func concretise(g *chainkit.Gen, n *chainkit.Node, a action, number, idx int, co
 			d.StorageDiffs[old] = map[felt.Felt]*felt.Felt{*g.Felt(): g.Felt()}
 		}
 		*contracts = append(*contracts, addr)
+		st.deployed = &addr
 	case 1: // every section present and empty
 		d = chainkit.EmptyDiff()
 	default: // every section nil
@@ -328,8 +377,14 @@ func concretise(g *chainkit.Gen, n *chainkit.Node, a action, number, idx int, co
 	var rcs []*core.TransactionReceipt
 	for i := 0; i < a.Size; i++ {
 		var tx core.Transaction
-		pos := idx + number + i // every variant below derives from the position: replays reproduce it
+		pos := idx + ver + i // every variant below derives from the position: replays reproduce it
+		reincluded := i < len(a.Src) && tag(a.Src[i]) == "tx"
 		switch {
+		case reincluded: // the very transaction a reverted block held (same hash), now at this height and index
+			tx = known[originOf(a.Src[i])]
+			if tx == nil {
+				panic(fmt.Sprintf("harness: step re-includes %v which was never stored", originOf(a.Src[i])))
+			}
 		case a.Kinds[i] == "l1handler":
 			tx = l1Handler(g, pos)
 		case a.Kinds[i] == "declare1" && pos%4 == 0: // the legacy version-0 declare: no nonce, its own hash
@@ -340,8 +395,8 @@ func concretise(g *chainkit.Gen, n *chainkit.Node, a action, number, idx int, co
 		}
 		// lengths around the CBOR / varint header boundaries, and extreme values
 		boundary := []int{0, 1, 23, 24, 255, 256}[pos%6]
-		extreme := (idx+number)%5 == 0
-		if inv, ok := tx.(*core.InvokeTransaction); ok {
+		extreme := (idx+ver)%5 == 0
+		if inv, ok := tx.(*core.InvokeTransaction); ok && !reincluded {
 			inv.CallData = g.Felts(boundary)
 			if extreme && inv.Version.Is(3) {
 				inv.Tip = ^uint64(0)
@@ -363,7 +418,7 @@ func concretise(g *chainkit.Gen, n *chainkit.Node, a action, number, idx int, co
 		if len(evs) > 1 && pos%2 == 0 {
 			evs[1] = evs[0] // two equal events in a row (and the very same object)
 		}
-		if large && i == 0 { // calldata and one event payload of largeN felts
+		if large && i == 0 && !reincluded { // calldata and one event payload of largeN felts
 			inv := tx.(*core.InvokeTransaction)
 			inv.CallData = g.Felts(largeN)
 			h, err := core.TransactionHash(inv, chainkit.Network)
@@ -413,6 +468,9 @@ func concretise(g *chainkit.Gen, n *chainkit.Node, a action, number, idx int, co
 			}
 			switch t := tx.(type) {
 			case *core.InvokeTransaction:
+				if reincluded {
+					break // a stored transaction is never touched again
+				}
 				if len(t.CallData) == 0 {
 					t.CallData = nil
 				}
@@ -420,7 +478,7 @@ func concretise(g *chainkit.Gen, n *chainkit.Node, a action, number, idx int, co
 					t.PaymasterData = nil
 				}
 			case *core.DeployAccountTransaction:
-				if len(t.ConstructorCallData) == 0 {
+				if !reincluded && len(t.ConstructorCallData) == 0 {
 					t.ConstructorCallData = nil
 				}
 			}
@@ -469,6 +527,28 @@ type sweeper struct {
 	chain    []*stored
 	bc       *chainkit.Node
 	n        int
+	// the reorg dimension: every transaction ever stored by its origin, where each is stored NOW
+	// (recomputed from the concrete chain after every write - the oracle is what was handed to
+	// Store, never what juno answers), and the blocks RevertHead removed, by version
+	known map[origin]core.Transaction
+	at    map[origin][2]int
+	dead  map[int]*stored
+}
+
+// relocate recomputes where every known transaction is stored now.
+func (s *sweeper) relocate() {
+	s.at = map[origin][2]int{}
+	byHash := map[felt.Felt][2]int{}
+	for n, st := range s.chain {
+		for i, tx := range st.b.Block.Transactions {
+			byHash[*tx.Hash()] = [2]int{n, i}
+		}
+	}
+	for o, tx := range s.known {
+		if loc, ok := byHash[*tx.Hash()]; ok {
+			s.at[o] = loc
+		}
+	}
 }
 
 func (s *sweeper) bad(name, what, msg string, exp, obs any) {
@@ -509,15 +589,22 @@ func dump(v any) string {
 	return string(b)
 }
 
-// resolve an item id of the specification to the stored concrete transaction / receipt
+// resolve an item id of the specification (the transaction's origin) to the concrete transaction,
+// and to the receipt it has in the block that holds it NOW
 func (s *sweeper) tx(x id) core.Transaction {
-	p := ints(x, 1)
-	return s.chain[p[0]].b.Block.Transactions[p[1]]
+	tx := s.known[originOf(x)]
+	if tx == nil {
+		panic(fmt.Sprintf("harness: the specification names transaction %v, which was never stored", originOf(x)))
+	}
+	return tx
 }
 
 func (s *sweeper) rc(x id) *core.TransactionReceipt {
-	p := ints(x, 1)
-	return s.chain[p[0]].b.Block.Receipts[p[1]]
+	loc, ok := s.at[originOf(x)]
+	if !ok {
+		panic(fmt.Sprintf("harness: the specification returns the receipt of %v, which is in no stored block", originOf(x)))
+	}
+	return s.chain[loc[0]].b.Block.Receipts[loc[1]]
 }
 
 func kindOfID(x id) string {
@@ -699,7 +786,16 @@ func (s *sweeper) sweepBlock(v blockView) {
 		tx, err = bc.TransactionByHash(h)
 		s.check("TransactionByHash", kindOfID(v.TxByHash[i]), wth, tx, err)
 		bn, bi, err := bc.BlockNumberAndIndexByTxHash((*felt.TransactionHash)(h))
-		s.check("BlockNumberAndIndexByTxHash", kindOfID(v.TxByHash[i]), []uint64{n, ix}, []uint64{bn, bi}, err)
+		wantLoc, locKind := []uint64{n, ix}, kindOfID(v.TxByHash[i])
+		if i < len(v.LocByHash) {
+			if locKind = kindOfID(v.LocByHash[i]); locKind == "found" {
+				p := ints(v.LocByHash[i], 1)
+				wantLoc = []uint64{uint64(p[0]), uint64(p[1])}
+			}
+		}
+		s.check("BlockNumberAndIndexByTxHash", locKind, wantLoc, []uint64{bn, bi}, err)
+		ct, err := core.GetTransactionByHash(store, (*felt.TransactionHash)(h)) // the core-level reader under it
+		s.check("core.GetTransactionByHash", kindOfID(v.TxByHash[i]), wth, ct, err)
 		rcp, rbh, rbn, err := bc.Receipt(h)
 		if kindOfID(v.RcByHash[i]) == "found" {
 			var ref id
@@ -769,6 +865,67 @@ func (s *sweeper) scan() {
 		s.check("BlockTransactionsBucket.Scan.transactions", "found", s.chain[i].b.Block.Transactions, txs, err)
 		rcs, err := e.Receipts().All()
 		s.check("BlockTransactionsBucket.Scan.receipts", "found", s.chain[i].b.Block.Receipts, rcs, err)
+	}
+}
+
+// sweepGone: what a reorg dropped is NOT FOUND through every by-hash accessor - the hash of every
+// transaction of a reverted block that no stored block holds now (a transaction that WAS re-included
+// is checked by sweepBlock at its new place), the message hash of every dropped L1 handler, the hash
+// of every replaced block, the classes only a replaced block declared.
+func (s *sweeper) sweepGone(g goneView) {
+	bc, store := s.bc.BC, s.bc.Store
+	for _, t := range g.Txs {
+		o := originOf(t.Hash)
+		tx := s.known[o]
+		if tx == nil {
+			panic(fmt.Sprintf("harness: the specification lists %v as dropped, which was never stored", o))
+		}
+		if _, ok := s.at[o]; ok {
+			panic(fmt.Sprintf("harness: the specification lists %v as dropped, the concrete chain holds it", o))
+		}
+		h := tx.Hash()
+		_, err := bc.TransactionByHash(h)
+		s.check("dropped:TransactionByHash", t.Tx, nil, nil, err)
+		_, err = core.GetTransactionByHash(store, (*felt.TransactionHash)(h))
+		s.check("dropped:core.GetTransactionByHash", t.Tx, nil, nil, err)
+		_, _, err = bc.BlockNumberAndIndexByTxHash((*felt.TransactionHash)(h))
+		s.check("dropped:BlockNumberAndIndexByTxHash", t.Loc, nil, nil, err)
+		_, _, _, err = bc.Receipt(h)
+		s.check("dropped:Receipt", t.Rc, nil, nil, err)
+		if t.L1 != "na" {
+			mh := eth.Hash(tx.(*core.L1HandlerTransaction).MessageHash())
+			_, err = bc.L1HandlerTxnHash(&mh)
+			s.check("dropped:L1HandlerTxnHash", t.L1, nil, nil, err)
+		}
+	}
+	for _, b := range g.Blocks {
+		st := s.dead[ints(b.Hash, 1)[0]]
+		if st == nil {
+			panic(fmt.Sprintf("harness: the specification lists block version %v as replaced, which was never reverted", ints(b.Hash, 1)))
+		}
+		h := st.b.Block.Hash
+		_, err := bc.BlockNumberByHash(h)
+		s.check("replaced:BlockNumberByHash", b.Number, nil, nil, err)
+		_, err = bc.BlockHeaderByHash(h)
+		s.check("replaced:BlockHeaderByHash", b.Header, nil, nil, err)
+		_, err = bc.BlockByHash(h)
+		s.check("replaced:BlockByHash", b.Block, nil, nil, err)
+		_, err = bc.StateUpdateByHash(h)
+		s.check("replaced:StateUpdateByHash", b.SU, nil, nil, err)
+		if len(st.hashes) > 0 {
+			state, closer, err := bc.HeadState()
+			if err != nil {
+				if len(s.chain) > 0 {
+					s.bad("HeadState", "kind", err.Error(), "found", err)
+				}
+				continue
+			}
+			for _, ch := range st.hashes {
+				_, err := state.Class(&ch)
+				s.check("replaced:StateReader.Class", "notfound", nil, nil, err)
+			}
+			_ = closer()
+		}
 	}
 }
 
@@ -1019,12 +1176,14 @@ func TestAccessorsReplay(t *testing.T) {
 			g := chainkit.NewGen(seed*1_000_003 + int64(idx))
 			node := chainkit.NewNode(store, idx%2 == 1)
 			sw := &sweeper{out: out, backend: backend, bc: node,
+				known: map[origin]core.Transaction{}, at: map[origin][2]int{}, dead: map[int]*stored{},
 				replay: vh.J{"seed": seed, "start": idx, "behaviours": [][]step{beh}, "backends": []string{backend}, "large_only": large}}
 			if large {
 				sw.backend += "+large"
 			}
 			var contracts []felt.Felt
 			stepOK := true
+			stores := 0
 			for i, stp := range beh {
 				if !stepOK {
 					break
@@ -1042,8 +1201,27 @@ func TestAccessorsReplay(t *testing.T) {
 						}
 						node = node.Restart()
 						sw.bc = node
+					} else if stp.A.Name == "Revert" {
+						if len(sw.chain) == 0 || stp.A.Number != len(sw.chain)-1 {
+							panic(fmt.Sprintf("harness: behaviour %d step %d reverts block %d of a chain of %d", idx, i, stp.A.Number, len(sw.chain)))
+						}
+						if err := node.BC.RevertHead(); err != nil {
+							sw.bad("Revert", "revert-failed", fmt.Sprintf("RevertHead of block %d fails: %v", stp.A.Number, err), "reverted", err)
+							return false
+						}
+						top := sw.chain[len(sw.chain)-1]
+						sw.chain = sw.chain[:len(sw.chain)-1]
+						sw.dead[top.ver] = top
+						if top.deployed != nil && len(contracts) > 0 && contracts[len(contracts)-1] == *top.deployed {
+							contracts = contracts[:len(contracts)-1]
+						}
+						sw.relocate()
 					} else {
-						st, err := concretise(g, node, stp.A, len(sw.chain), idx, &contracts, large)
+						if stp.A.Src == nil { // a behaviour recorded before the reorg dimension: append-only
+							stp.A.Ver = stores
+						}
+						stores++
+						st, err := concretise(g, node, stp.A, len(sw.chain), idx, &contracts, large, sw.known)
 						if err != nil {
 							// the real Simulate refuses a block the specification allows
 							sw.bad("Store", "producer-failed", fmt.Sprintf("cannot build block %d: %v", len(sw.chain), err), "built", err)
@@ -1054,6 +1232,12 @@ func TestAccessorsReplay(t *testing.T) {
 							return false
 						}
 						sw.chain = append(sw.chain, st)
+						for j, tx := range st.b.Block.Transactions {
+							if j >= len(stp.A.Src) || tag(stp.A.Src[j]) != "tx" {
+								sw.known[origin{st.ver, j}] = tx
+							}
+						}
+						sw.relocate()
 						if len(st.b.Block.Transactions) > 0 && len(writersPool) < 16 && backend == backends[0] && !large {
 							writersPool = append(writersPool, st)
 						}
@@ -1065,17 +1249,29 @@ func TestAccessorsReplay(t *testing.T) {
 							sw.codecs(st)
 						}
 					}
-					last := sw.chain[len(sw.chain)-1]
-					if h, err := node.BC.Height(); err != nil || int(h) != stp.View.Height {
-						sw.bad("Height", "value", "height", stp.View.Height, fmt.Sprint(h, err))
-					}
-					if len(stp.View.Blocks) != len(sw.chain) {
+					if len(stp.View.Blocks) != len(sw.chain) || stp.View.Height != len(sw.chain)-1 {
 						panic(fmt.Sprintf("harness: behaviour %d step %d: view has %d blocks, chain %d", idx, i, len(stp.View.Blocks), len(sw.chain)))
 					}
-					head, err := node.BC.Head()
-					sw.check("Head", "found", last.b.Block, head, err)
-					hh, err := node.BC.HeadsHeader()
-					sw.check("HeadsHeader", "found", last.b.Block.Header, hh, err)
+					if !stp.reads() {
+						return true // nothing is read between this write and the next one
+					}
+					if len(sw.chain) == 0 { // the whole chain was reverted
+						_, err := node.BC.Height()
+						sw.check("Height", "notfound", nil, nil, err)
+						_, err = node.BC.Head()
+						sw.check("Head", "notfound", nil, nil, err)
+						_, err = node.BC.HeadsHeader()
+						sw.check("HeadsHeader", "notfound", nil, nil, err)
+					} else {
+						last := sw.chain[len(sw.chain)-1]
+						if h, err := node.BC.Height(); err != nil || int(h) != stp.View.Height {
+							sw.bad("Height", "value", "height", stp.View.Height, fmt.Sprint(h, err))
+						}
+						head, err := node.BC.Head()
+						sw.check("Head", "found", last.b.Block, head, err)
+						hh, err := node.BC.HeadsHeader()
+						sw.check("HeadsHeader", "found", last.b.Block.Header, hh, err)
+					}
 					for _, bv := range stp.View.Blocks {
 						// results of the newest block's first sweep are retained and re-checked at the end
 						sw.retain = stp.A.Name == "Store" && bv.N == len(sw.chain)-1
@@ -1083,6 +1279,7 @@ func TestAccessorsReplay(t *testing.T) {
 					}
 					sw.retain = false
 					sw.sweepBlock(stp.View.Beyond)
+					sw.sweepGone(stp.View.Gone)
 					sw.scan()
 					return true
 				})
@@ -1098,6 +1295,7 @@ func TestAccessorsReplay(t *testing.T) {
 					for _, bv := range last.View.Blocks {
 						sw.sweepBlock(bv)
 					}
+					sw.sweepGone(last.View.Gone)
 					return true
 				})
 			}
@@ -1256,7 +1454,7 @@ func concurrentReaders(out *vh.Result, seed int64, replay any) int {
 			for i := 0; i < 3; i++ {
 				a.Kinds = append(a.Kinds, chainkit.TxKinds[(n*3+i)%len(chainkit.TxKinds)])
 			}
-			st, err := concretise(g, twin, a, n, ci*3, &contracts, false)
+			st, err := concretise(g, twin, a, n, ci*3, &contracts, false, nil)
 			if err == nil {
 				err = twin.StoreBuilt(st.b)
 			}
